@@ -683,10 +683,10 @@ fn subs() -> Vec<Sub> {
             }),
             ..ex
         },
-        gen_sub("random", random, |t| t.pick(30_000, 1_000_000), check),
-        gen_sub("long_and_wide", long_and_wide, |t| t.pick(1_500, 40_000), check),
-        gen_sub("duplicates", duplicates, |t| t.pick(10_000, 300_000), check),
-        gen_sub("chains", chains, |t| t.pick(30_000, 600_000), check_chain),
+        gen_sub("random", random, |t| t.pick(150_000, 1_000_000), check),
+        gen_sub("long_and_wide", long_and_wide, |t| t.pick(6_000, 40_000), check),
+        gen_sub("duplicates", duplicates, |t| t.pick(50_000, 300_000), check),
+        gen_sub("chains", chains, |t| t.pick(120_000, 600_000), check_chain),
     ]
 }
 
